@@ -10,19 +10,23 @@ Local Open Scope string_scope.
 Theorem C14_roundtrip_device : forall d : dev_ser,
   wf_dev d -> cbor_ok (dev_to_cbor d) -> dev_parse (dev_stringify d) = Some d.
 Proof. exact dev_parse_stringify. Qed.
+Print Assumptions C14_roundtrip_device.
 
 Theorem C14_roundtrip_reader : forall r : rdr_ser,
   wf_rdr r -> cbor_ok (rdr_to_cbor r) -> rdr_parse (rdr_stringify r) = Some r.
 Proof. exact rdr_parse_stringify. Qed.
+Print Assumptions C14_roundtrip_reader.
 
 Theorem C14_roundtrip_init_engaged : forall e : engaged_ser,
   wf_bytes (es_e_device_key e) = true -> cbor_ok (engaged_to_cbor e) ->
   engaged_parse (match es_handover e with Some _ => true | None => false end) (engaged_stringify e) = Some e.
 Proof. exact engaged_parse_stringify. Qed.
+Print Assumptions C14_roundtrip_init_engaged.
 
 Theorem C14_cycles : forall (n : nat) (d : dev_ser),
   wf_dev d -> cbor_ok (dev_to_cbor d) -> cycles n d = Some d.
 Proof. exact dev_cycles. Qed.
+Print Assumptions C14_cycles.
 
 (* for every operation list and every set of positions at which either role is serialised and
    restored, the final state, the emissions and the outputs of the remaining steps are those of
@@ -32,6 +36,7 @@ Theorem C14_transparent : forall (ops : list op) (s : sys),
   let '(s2, outs2, ems2) := run (filter (fun o => negb (is_restore o)) ops) s in
   s1 = s2 /\ ems1 = ems2 /\ outs_without_restores ops outs1 = outs2.
 Proof. exact restore_transparent. Qed.
+Print Assumptions C14_transparent.
 
 (* the state structs of the current source have exactly the fields the model serialises, with the
    types it assumes, and no serde attribute (skip / default / rename / with) on any of them *)
@@ -55,6 +60,7 @@ Theorem C14_fields :
   /\ gen_state_variants = [("AwaitingRequest", "", "unit"); ("Signing", "", "tuple1"); ("ReadyToRespond", "", "tuple1")]
   /\ gen_state_container_attrs = "".
 Proof. repeat split; reflexivity. Qed.
+Print Assumptions C14_fields.
 
 (* non-vacuity: a mid-signing device state meets the hypotheses *)
 Definition ex_dev : dev_ser :=
